@@ -40,8 +40,12 @@ def write_to(shx, path):
 def add_unknown(text, rng):
     lines = text.rstrip('\n').split('\n')
     ins = []
+    # behind the last FVAR line: SFAC and FVAR lines coalesce at the position of the first, which would move a line placed between them
+    lo = max([q for q, l in enumerate(lines) if l.upper().startswith(('FVAR', 'SFAC', 'UNIT'))] + [7]) + 1
+    while lo < len(lines) and lines[lo].startswith(' '):
+        lo += 1
     for _ in range(rng.randint(0, 3)):
-        i = rng.randint(8, max(8, len(lines) - 2))
+        i = rng.randint(lo, max(lo, len(lines) - 2))
         if lines[i - 1].split('!')[0].rstrip().endswith('=') or lines[i].startswith(' '):
             continue
         if rng.random() < 0.35:
